@@ -57,6 +57,18 @@ static void cc_imm_reg (int index, int imm, int dest)
 #define cc_imm_reg(index, imm, dest) ((void)0)
 #endif
 
+#ifdef SK_GHOST
+/* C10 skeleton contract (contracts/skeleton.c): an event clock, and for every label where it is placed and where the
+ * first branch to it is emitted */
+#include "contracts/skeleton.h"
+int g_t, g_label_pos[SK_LABELS], g_first_branch[SK_LABELS];
+static void sk_label (int label) { if (label >= 0 && label < SK_LABELS) g_label_pos[label] = g_t; g_t++; }
+static void sk_branch (int label) { if (label >= 0 && label < SK_LABELS && g_first_branch[label] < 0) g_first_branch[label] = g_t; g_t++; }
+#else
+#define sk_label(label) ((void)0)
+#define sk_branch(label) ((void)0)
+#endif
+
 #define REC(index, prefix) (g_need |= isa_need_ip ((index), (prefix)))
 
 void orc_x86_emit_cpuinsn_size (OrcCompiler *p, int index, int size, int src, int dest) { REC (index, 0); cc_size (index, size, src, dest); }
@@ -70,9 +82,9 @@ void orc_x86_emit_cpuinsn_reg_memoffset (OrcCompiler *p, int index, int src, int
 void orc_x86_emit_cpuinsn_reg_memoffset_8 (OrcCompiler *p, int index, int src, int offset, int dest) { REC (index, 0); cc_mem_store (index, src, offset); }
 void orc_x86_emit_cpuinsn_reg_memoffset_s (OrcCompiler *p, int index, int size, int src, int offset, int dest) { REC (index, 0); cc_mem_store (index, src, offset); }
 void orc_x86_emit_cpuinsn_memoffset_reg (OrcCompiler *p, int index, int size, int offset, int src, int dest) { REC (index, 0); cc_mem_load (index, offset, dest); }
-void orc_x86_emit_cpuinsn_branch (OrcCompiler *p, int index, int label) { REC (index, 0); }
+void orc_x86_emit_cpuinsn_branch (OrcCompiler *p, int index, int label) { REC (index, 0); sk_branch (label); }
 void orc_x86_emit_cpuinsn_align (OrcCompiler *p, int index, int align_shift) { REC (index, 0); }
-void orc_x86_emit_cpuinsn_label (OrcCompiler *p, int index, int label) { REC (index, 0); }
+void orc_x86_emit_cpuinsn_label (OrcCompiler *p, int index, int label) { REC (index, 0); sk_label (label); }
 void orc_x86_emit_cpuinsn_none (OrcCompiler *p, int index) { REC (index, 0); }
 void orc_x86_emit_cpuinsn_memoffset (OrcCompiler *p, int index, int size, int offset, int srcdest) { REC (index, 0); }
 void orc_vex_emit_cpuinsn_none (OrcCompiler *p, const int index, const OrcX86OpcodePrefix prefix) { REC (index, prefix); }
